@@ -64,6 +64,14 @@ theorem ringOf_stepBuiltin (s : LexCore) (r : Char) : RingOf (stepBuiltin s r) s
   · exact ringOf_ok _ _ rfl rfl
   apply RingOf.ite
   · exact ringOf_ok _ _ rfl rfl
+  apply RingOf.ite
+  · exact ringOf_ok _ _ rfl rfl
+  · exact (ringOf_stepNormal _ r).of_eq rfl rfl
+
+theorem ringOf_stepMinusDot (s : LexCore) (r : Char) : RingOf (stepMinusDot s r) s := by
+  unfold stepMinusDot
+  apply RingOf.ite
+  · exact ringOf_ok _ _ rfl rfl
   · exact (ringOf_stepNormal _ r).of_eq rfl rfl
 
 theorem ringOf_stepFirstFwdSlash (s : LexCore) (r : Char) : RingOf (stepFirstFwdSlash s r) s := by
@@ -105,6 +113,7 @@ theorem ringOf_stepMode (s : LexCore) (r : Char) : RingOf (stepMode s r) s := by
   case firstFwdSlash => exact ringOf_stepFirstFwdSlash s r
   case freshAssignOrColon => exact ringOf_stepFresh s r
   case builtinOperator => exact ringOf_stepBuiltin s r
+  case minusDot => exact ringOf_stepMinusDot s r
   case normal => exact ringOf_stepNormal s r
   case strHexEscape => exact ringOf_hexEscapeDigit s r _
   case runeHexEscape => exact ringOf_hexEscapeDigit s r _
